@@ -9,6 +9,12 @@ CHECKS = {
  'C04': ('vt', 'bounded-exhaustive enumeration of timed call programs x batch-function scripts on the real batcher under a virtual-time event loop',
          'Every program of up to 4 (thorough 6) calls over repeating keys, gaps straddling batch_timeout, configs, per-key batch-function behaviours (value / Exception / StopIteration / omitted / raise / duplicate / unknown key), result orders and durations is executed on the real AsyncBackgroundBatcher (class and function form, one and two instances); each caller outcome is matched by identity against what the harness batch function yielded for its key; a pending caller at loop quiescence is a hang.',
          'CPython 3.12 asyncio; virtual clock; <= 2 deviating keys per script; subclass instances of StopIteration are outside the alphabet (CPython returns their .value).', '3/C04'),
+ 'C09': ('vt', 'bounded-exhaustive enumeration of call/cancel event sequences on the real batcher under a virtual-time event loop',
+         'Every sequence of 2..3 (thorough 4) calls over repeating keys with 1..2 cancel events at every position, gaps x per-item durations covering queued / running-before-result / after-result, x configs, retention 0 and >0, result order, value/exception scripts, followed by fresh calls; every never-cancelled caller is matched by identity against the batch function yield for its key; pending callers at quiescence are hangs.',
+         'virtual clock; the cancelled caller itself is unconstrained.', '3/C09'),
+ 'C11': ('vt', 'bounded-exhaustive enumeration of timed same-key call sequences on the real batcher under a virtual-time event loop',
+         'Every timed sequence of up to 4 (thorough 5) calls over repeating keys with gaps on a grid around batch_timeout, retention_timeout and the answer instant, retention in {0, 0.5, 4}; calls are classified sharer/origin from exact virtual arrival vs answer times and checked by object identity / batch id; no batch may carry a key twice; batch items must equal distinct computations.',
+         'virtual clock; exact ties with the eviction instant are not judged; nobody cancelled.', '3/C11'),
  'C10': ('vt', 'bounded-exhaustive enumeration of arrival-time sequences (with max_batch_size mutation events) on the real batcher under a virtual-time event loop',
          'All arrival sequences of up to 5 (thorough 7) calls on a gap grid straddling batch_timeout, with one max_batch_size mutation at any position, x size/concurrency/duration configs; the batch log of the harness batch function is checked for size limit, concurrency limit, FIFO, sharing-until-full and dispatch deadline (exact in virtual time, ties not judged).',
          'virtual clock; distinct keys; ties between arrivals and timers abstain on timing clauses only.', '3/C10'),
